@@ -3,6 +3,7 @@
 //! 0 when it holds on this input, 2 for an unknown witness.
 use bytes::Bytes;
 use dns_types::protocol::types::*;
+use dns_types::zones::types::*;
 use std::process::exit;
 
 fn dn(s: &str) -> DomainName {
@@ -80,11 +81,57 @@ fn c03_compressed_name_over_255() -> bool {
     ok
 }
 
+fn a_data(ip: &str) -> RecordTypeWithData {
+    RecordTypeWithData::A { address: ip.parse().unwrap() }
+}
+
+/// C12: wildcard records of a later file must survive the merge when the earlier file has none at that node.
+fn c12_wildcard_merge_dropped() -> bool {
+    let apex = dn("example.");
+    let mut first = Zone::new(apex.clone(), None);
+    first.insert(&dn("a.example."), a_data("10.0.0.1"), 300);
+    let mut second = Zone::new(apex.clone(), None);
+    second.insert_wildcard(&dn("a.example."), a_data("10.0.0.2"), 300);
+    let q = dn("x.a.example.");
+    let alone = second.resolve(&q, QueryType::Record(RecordType::A));
+    first.merge(second).unwrap();
+    let merged = first.resolve(&q, QueryType::Record(RecordType::A));
+    println!("input: file 1 = `a.example. A 10.0.0.1`, file 2 = `*.a.example. A 10.0.0.2`, question x.a.example. A");
+    println!("required: the merged zone answers with the union of what the files define (the wildcard record)");
+    println!("observed: file 2 alone -> {alone:?}");
+    println!("observed: merged       -> {merged:?}");
+    matches!(merged, Some(ZoneResult::Answer { ref rrs }) if rrs.len() == 1)
+}
+
+fn soa(serial: u32) -> SOA {
+    SOA { mname: dn("ns.example."), rname: dn("admin.example."), serial, refresh: 1, retry: 1, expire: 1, minimum: 60 }
+}
+
+/// C12: after merging two files that both carry a SOA the zone has exactly one SOA, that of the last file.
+fn c12_two_soas_after_merge() -> bool {
+    let apex = dn("example.");
+    let mut first = Zone::new(apex.clone(), Some(soa(1)));
+    let second = Zone::new(apex.clone(), Some(soa(2)));
+    first.merge(second).unwrap();
+    let r = first.resolve(&apex, QueryType::Record(RecordType::SOA));
+    println!("input: two zone files for example., SOA serial 1 then SOA serial 2; question example. SOA");
+    println!("required: exactly one SOA record, serial 2");
+    println!("observed: {r:?}");
+    match r {
+        Some(ZoneResult::Answer { rrs }) => {
+            rrs.len() == 1 && matches!(rrs[0].rtype_with_data, RecordTypeWithData::SOA { serial: 2, .. })
+        }
+        _ => false,
+    }
+}
+
 fn main() {
     let w = std::env::args().nth(1).unwrap_or_default();
     let ok = match w.as_str() {
         "c04_pointer_beyond_16k" => c04_pointer_beyond_16k(),
         "c03_compressed_name_over_255" => c03_compressed_name_over_255(),
+        "c12_wildcard_merge_dropped" => c12_wildcard_merge_dropped(),
+        "c12_two_soas_after_merge" => c12_two_soas_after_merge(),
         _ => {
             eprintln!("unknown witness `{w}`");
             exit(2)
